@@ -761,3 +761,23 @@ Qed.
 
 Lemma no_genesis_run : forall ops s0, bids_allowed s0 -> Forall (fun o => o <> OGenesis) ops -> bids_allowed (run s0 ops).
 Proof. intros ops s0 H _. apply bids_allowed_run. exact H. Qed.
+
+(* ---- histories: an operation that is not the allow-list API, MsgAddAllowedBidder or a genesis round trip never
+        changes the allow-list, so no sequence of them does *)
+Definition user_op (o : op) : Prop :=
+  match o with
+  | OApiAdd _ _ | OApiUpdate _ _ _ | OGenesis | OTx (MAddAllowed _ _ _ _) => False
+  | _ => True
+  end.
+
+Lemma user_op_frame : forall s o, user_op o -> ~ may_change_allowed s o.
+Proof.
+  intros s o H. destruct o as [m| | | | | | |]; cbn in *; try tauto.
+  destruct m; cbn in *; tauto.
+Qed.
+
+Theorem allowed_frame_run : forall ops s, Forall user_op ops -> st_allowed (run s ops) = st_allowed s.
+Proof.
+  unfold run. induction ops as [|o ops IH]; intros s H; cbn [fold_left]; [reflexivity|].
+  inversion H as [|? ? Ho Hops]; subst. rewrite (IH _ Hops). apply allowed_frame_step, user_op_frame, Ho.
+Qed.
